@@ -37,12 +37,17 @@ func (v *inputFieldDefaultInjectionVisitor) EnterDocument(operation, definition 
 func (v *inputFieldDefaultInjectionVisitor) EnterVariableDefinition(ref int) {
 	v.variableName = v.operation.VariableDefinitionNameString(ref)
 
-	variableVal, _, _, err := jsonparser.Get(v.operation.Input.Variables, v.variableName)
+	variableVal, variableValType, _, err := jsonparser.Get(v.operation.Input.Variables, v.variableName)
 	if errors.Is(err, jsonparser.KeyPathNotFoundError) {
 		return
 	}
 	if err != nil {
 		v.StopWithInternalErr(err)
+		return
+	}
+	if variableValType == jsonparser.String {
+		// jsonparser returns the string without its quotes, it must not be parsed as JSON again;
+		// a string is neither an input object nor a list, the variablesvalidation package reports it
 		return
 	}
 
@@ -82,7 +87,7 @@ func (v *inputFieldDefaultInjectionVisitor) recursiveInjectInputFields(inputObje
 		isTypeScalarOrEnum := v.isScalarTypeOrExtension(valDef.Type, v.definition)
 		hasDefault := valDef.DefaultValue.IsDefined
 
-		varVal, _, _, err := jsonparser.Get(varValue, fieldName)
+		varVal, varValType, _, err := jsonparser.Get(varValue, fieldName)
 		if err != nil && !errors.Is(err, jsonparser.KeyPathNotFoundError) {
 			v.StopWithInternalErr(err)
 			return nil, false, err
@@ -90,6 +95,10 @@ func (v *inputFieldDefaultInjectionVisitor) recursiveInjectInputFields(inputObje
 		existsInVal := !errors.Is(err, jsonparser.KeyPathNotFoundError)
 
 		if !isTypeScalarOrEnum {
+			if existsInVal && varValType == jsonparser.String {
+				// see EnterVariableDefinition: a string is left to the variablesvalidation package
+				continue
+			}
 			var valToUse []byte
 			if existsInVal {
 				valToUse = varVal
@@ -186,6 +195,8 @@ func (v *inputFieldDefaultInjectionVisitor) processObjectOrListInput(fieldType i
 			return nil, false, err
 
 		}
+	case !fieldIsList && valType != jsonparser.Object:
+		// e.g. a number where an input object is expected: nothing to inject into
 	case !fieldIsList && !valIsList:
 		finalVal, replaced, err = v.recursiveInjectInputFields(node.Ref, defaultValue)
 		if err != nil {
